@@ -1,4 +1,4 @@
-import XalanModel.C09.ChainProofs
+import XalanModel.C09.Targets
 /-!
 # C09 — a node matches a pattern exactly when the pattern, as an expression, selects it
 
@@ -473,5 +473,47 @@ theorem backtracking_witnesses :
       (List.range chainDoc.size).map (fun n => Spec.matchesPattern chainDoc pat_root_a_b n) ∧
     getMatchScore Variant.backtracking chainDoc pat_zab 5 = .other := by
   decide
+
+/-! ## consumers that pre-filter candidate nodes by target data -/
+
+/-- **`getTargetData` is complete for template lookup.**  For every shape of last step (id()/key() call, `/`, any
+axis with any node test) and every node kind the repaired matcher can accept for it (`canMatchKind`, an
+over-approximation of `stepAtB` by kind: second conjunct), the (pseudo name, target type) that `XPath::getTargetData`
+assigns — table regenerated from XPath.cpp — is routed by `Stylesheet::addTemplate` — table regenerated from
+Stylesheet.cpp — into at least one list that `locateMatchPatternDataList` consults for a node of that kind.  So filing
+templates by target data never hides a template from a node its pattern matches. -/
+theorem target_data_complete :
+    (∀ (ls : LastStep) (K : Kind), canMatchKind ls K = true →
+      ∃ tg, targetOf ls = some tg ∧ ∃ l ∈ listsOf tg, l ∈ consulted K) ∧
+    (∀ (d : Doc) (s : Step) (fd : Bool) (x : Nat),
+      stepAtB Variant.backtracking d (compileStep s fd) x ≠ .none →
+        canMatchKind (.step s.attrAxis s.test) (d.kind x) = true) := by
+  refine ⟨?_, fun d s fd x h => stepAtB_kind d s fd x h⟩
+  intro ls K h
+  cases ls with
+  | fn => cases K <;> exact ⟨_, rfl, by decide⟩
+  | root => cases K <;> simp [canMatchKind] at h <;> exact ⟨_, rfl, by decide⟩
+  | step ax t =>
+    cases ax <;> cases t <;> cases K <;> simp [canMatchKind] at h <;> exact ⟨_, rfl, by decide⟩
+
+/-- **`KeyTable::KeyTable` offers every node to the key patterns** (facts regenerated from KeyTable.cpp): the
+pre-walk visits every node below the start node, compares node types only to fetch an element's attributes, walks
+those attributes, and tries every declaration on each; and if the file consults target data at all (an
+"optimisation" that skips attributes unless a key can target one), every last step that can match an attribute —
+`@name`, `@*`, `@p:*`, `@node()`/`attribute::node()`, an id()/key() call — must carry one of the target types the
+file names.  (`@node()` is classified eOther, so a filter on eAttribute/eAny breaks this theorem.) -/
+theorem keytable_visits_complete :
+    (Generated.C09_KeyTable.walksTree = true ∧ Generated.C09_KeyTable.walksAttributes = true ∧
+      Generated.C09_KeyTable.testsEveryDeclaration = true ∧ Generated.C09_KeyTable.nodeTypeTests = ["ELEMENT_NODE"] ∧
+      (Generated.C09_KeyTable.mentionsTargetData = false ∨
+        ∀ c ∈ [4, 10, 12, 14, 0], ∃ r ∈ Generated.C10.targetRows,
+          r.1 = c ∧ r.2.2.2 ∈ Generated.C09_KeyTable.targetTypesMentioned)) ∧
+    (∀ ls : LastStep, canMatchKind ls .attr = true → ls.code ∈ [4, 10, 12, 14, 0]) := by
+  refine ⟨by decide, ?_⟩
+  intro ls h
+  cases ls with
+  | fn => decide
+  | root => simp [canMatchKind] at h
+  | step ax t => cases ax <;> cases t <;> simp [canMatchKind] at h <;> simp [LastStep.code, Test.targetCode]
 
 end XalanModel.Props.C09
